@@ -48,6 +48,26 @@ class Box:
     __hash__ = None
 
 
+class TL(list):
+    """Native list whose item reads, writes and deletions are logged through the tracer."""
+
+    def __init__(self, T, items):
+        super().__init__(items)
+        self._T = T
+
+    def __getitem__(self, i):
+        self._T(f"getitem:{i!r}")
+        return super().__getitem__(i)
+
+    def __setitem__(self, i, v):
+        self._T(f"setitem:{i!r}")
+        super().__setitem__(i, v)
+
+    def __delitem__(self, i):
+        self._T(f"delitem:{i!r}")
+        super().__delitem__(i)
+
+
 class CM:
     """Native context manager that logs through the tracer."""
 
@@ -83,6 +103,7 @@ def make_env(limit=400, extra=None):
     T = Tracer(limit)
     env = {"T": T, "F": F, "Box": Box, "EA": EA, "EB": EB, "EC": EC}
     env["CM"] = lambda tag, **kw: CM(T, tag, **kw)
+    env["TL"] = lambda *items: TL(T, items)
     if extra:
         env.update(extra)
     return env, T
